@@ -197,6 +197,7 @@ func cmdCheck(args []string) {
 	newLedger := Ledger{Property: *prop, Functions: map[string]string{}}
 	solverTime := 0.0
 	secsByFunc := map[string]float64{}
+	var detachedClauses []string
 	exit := 0
 	var slow []string
 	const slowThreshold = 3.0
@@ -205,6 +206,10 @@ func cmdCheck(args []string) {
 		funcsUnder = append(funcsUnder, ukey)
 		for _, se := range u.SpecErrs {
 			toolErrors = append(toolErrors, "specification error in "+ukey+": "+se)
+		}
+		for _, d := range u.Detached {
+			fmt.Println("DETACHED:", d)
+			detachedClauses = append(detachedClauses, d)
 		}
 		for k, v := range u.Inlined {
 			inlined[k] += v
@@ -408,6 +413,7 @@ func cmdCheck(args []string) {
 			"not_claimed":              undecidedHits,
 			"undecided_new":            newUndecided,
 			"tool_errors":              toolErrors,
+			"detached_clauses":         detachedClauses,
 			"slow_obligations":         slow,
 			"solver_seconds_by_function": secsByFunc,
 			"samples":                  samples,
